@@ -334,6 +334,17 @@ def install(I):
     def set_new(ctx, *a):
         s = SetVal()
         if a:
+            from . import nparr as _np
+            if isinstance(a[0], _np.NArr) and not isinstance(a[0].n, int):
+                # the set of the elements of an array of symbolic length: only what error-reporting code does with it
+                def ga(ctx2, n):
+                    if n in ("difference", "union", "intersection"):
+                        return Builtin("set." + n, lambda ctx3, *o: Opaque(None, "set-of-array-elements", {"getattr": ga}))
+                    if n == "pop":
+                        return Builtin("set.pop", lambda ctx3: Opaque(None, "some-element", {}))
+                    from .interp import _MISSING
+                    return _MISSING
+                return Opaque(None, "set-of-array-elements", {"getattr": ga})
             for v in I.iterate(ctx, a[0]):
                 s.items[I_hkey(v)] = v
         return s
